@@ -19,7 +19,7 @@ import (
 var c11Sched func(c *core.Ctx, nontriv *atomic.Int64) bool
 
 func init() {
-	core.Register(core.Check{ID: "C11", Level: "exploration", Run: func(c *core.Ctx) { runC11(c); reentrancyPass(c, "C11") }})
+	core.Register(core.Check{ID: "C11", Level: "exploration", Run: func(c *core.Ctx) { runC11(c); historyPass(c, "C11"); reentrancyPass(c, "C11") }})
 }
 
 // refPowZeros: trailing zero trits of Curl-P-81(b1t6(BLAKE2b-256(data)) || b1t6(nonce LE) || 000), own chain.
